@@ -1,10 +1,11 @@
-(* Correspondence glue for the diff engine (C15): the case carries the two input trees, the options and
+(* Correspondence glue for the diff engine (C15): the case carries the two input trees (each with its own
+   separator; dc_sep2 is the second tree's), the options and
    what bigtree's get_tree_diff returned; the check compares it with the model (as a multiset of
    (path_name, attributes)) and evaluates prop_C15 on the implementation's output. *)
 From BT Require Import Base.Prelude Base.Str Base.Rose Algo.Diff Spec.PC15.
 
 Record dcase := DC {
-  dc_sep : str;  dc_t1 : tree;  dc_t2 : tree;  dc_only_diff : bool;  dc_attrs : list str;
+  dc_sep : str;  dc_sep2 : str;  dc_t1 : tree;  dc_t2 : tree;  dc_only_diff : bool;  dc_attrs : list str;
   dc_obs : dobs
 }.
 
@@ -17,7 +18,7 @@ Definition agree (m : res (option (list onode))) (o : dobs) : bool :=
   end.
 
 Definition model_of (c : dcase) : res (option (list onode)) :=
-  get_tree_diff (dc_sep c) (dc_t1 c) (dc_t2 c) (dc_only_diff c) (dc_attrs c).
+  get_tree_diff_seps (dc_sep c) (dc_sep2 c) (dc_t1 c) (dc_t2 c) (dc_only_diff c) (dc_attrs c).
 
 (* F_SKIP: outside the domain (separator inside a name, different root names, ...).
    The property predicate is evaluated whenever no name already ends in a marker; the model is
